@@ -34,7 +34,7 @@ BUDGET = {"quick": {"runs": 300, "chunk": 6}, "thorough": {"runs": 30000, "chunk
 COMPONENTS = {"real": ["Solution.to_hdf5/from_hdf5", "Device/Polygon/Layer/Mesh/EdgeMesh (de)serialisation", "Parameter/CompositeParameter pickling", "SolverOptions round trip", "seeding a run from a reloaded solution"], "stub": ["wall clock (simulated, so time_created is reproducible)"]}
 ASSUMPTIONS = ["Only state produced by simulated runs is round-tripped; the quantifier over all devices/option combinations/expression trees is sampled, not covered."]
 
-OPS = ["reload", "reload-step", "copy", "orphan-copy", "moved-save", "moved-save-inplace", "dynamics-h5", "main-def", "device-h5", "device-h5-nomesh", "mesh-h5", "mesh-h5-compressed", "pickle-device", "pickle-params", "seed-run", "equality"]
+OPS = ["reload", "reload-step", "copy", "orphan-copy", "moved-save", "moved-save-inplace", "dynamics-h5", "main-def", "device-h5", "device-h5-nomesh", "mesh-h5", "mesh-h5-compressed", "pickle-device", "pickle-params", "seed-run", "equality", "device-edited"]
 MESH_ARRAYS = ("sites", "elements", "boundary_indices", "areas", "dual_sites")
 EDGE_ARRAYS = ("edges", "centers", "boundary_edge_indices", "directions", "edge_lengths", "dual_edge_lengths")
 
@@ -467,6 +467,40 @@ def run(scn):
                     if isinstance(sol.applied_vector_potential, tdgl.Parameter) and not (hld.applied_vector_potential == sol.applied_vector_potential):
                         diffs.append("pickled parameter does not compare equal")
                     report(op, diffs)
+                elif op == "device-edited":
+                    # the caller goes on to the next point of a sweep and edits the Device object it solved with, in
+                    # place (material parameters, the name, a hole moved, a probe moved): the Solution it already
+                    # holds is the record of the earlier run and still equals its own file
+                    dev_user = h.device
+                    lay = dev_user.layer
+                    saved = {k_: getattr(lay, k_) for k_ in ("thickness", "london_lambda", "gamma", "u", "z0")}
+                    saved_name = dev_user.name
+                    pp0 = None if dev_user.probe_points is None else np.array(dev_user.probe_points, copy=True)
+                    hole_pts = [np.array(hh.points, copy=True) for hh in dev_user.holes]
+                    snap = sol.device.copy(with_mesh=False)
+                    try:
+                        lay.thickness = saved["thickness"] * 2.5
+                        lay.london_lambda = saved["london_lambda"] * 0.5
+                        lay.gamma = saved["gamma"] + 1.0
+                        lay.u = saved["u"] * 2
+                        lay.z0 = saved["z0"] + 0.5 * float(lay.coherence_length)
+                        dev_user.name = saved_name + "-next"
+                        if pp0 is not None:
+                            dev_user.probe_points[:] = pp0 * 0.5
+                        for hh in dev_user.holes:
+                            hh.points[:] = hh.points + 1e-3 * float(lay.coherence_length)
+                        diffs = ["the Solution changed when the caller's Device was edited in place afterwards: " + d_ for d_ in cmp_device(snap, sol.device, with_mesh=False)]
+                        re = tdgl.Solution.from_hdf5(path)
+                        diffs += cmp_device(sol.device, re.device, with_mesh=False)
+                        report(op, diffs)
+                    finally:
+                        for k_, v_ in saved.items():
+                            setattr(lay, k_, v_)
+                        dev_user.name = saved_name
+                        if pp0 is not None:
+                            dev_user.probe_points[:] = pp0
+                        for hh, p0_ in zip(dev_user.holes, hole_pts):
+                            hh.points[:] = p0_
                 elif op == "equality":
                     re = tdgl.Solution.from_hdf5(path)
                     re.solve_step = sol.solve_step
